@@ -435,6 +435,25 @@ fn entry_from(v: &Value) -> Entry {
 }
 
 impl Scenario {
+    /// Placeholder scenario of component simulations (their real input lives in `ReplayFile::extra`).
+    pub fn empty() -> Self {
+        Self {
+            evm: EvmSpec { spec: SpecId::SHANGHAI, chain_id: 1, disable_nonce_check: false },
+            block: BlockSpec { number: 0, beneficiary: Address::ZERO, timestamp: 0, gas_limit: 0, basefee: 0, prevrandao: B256::ZERO, difficulty: U256::ZERO },
+            pre_state: vec![],
+            block_hashes: vec![],
+            txs: vec![],
+            grevm: GrevmSpec { concurrency: 1, min_parallel_txs: 0, force_sequential: false, forbid_delegated_create: false, reserve_delegated_balance: false },
+            warm_cache: false,
+            bundle_update: true,
+            faults: vec![],
+            precompiles: vec![],
+            callers: vec![vec![Entry::Execute]],
+            second: None,
+            profile: "component".into(),
+        }
+    }
+
     pub fn to_json(&self) -> Value {
         json!({
             "profile": self.profile,
